@@ -524,6 +524,19 @@ class FileSplicer:
                 if nhit == 0 and not s.optional:
                     raise SpliceError('lost anchor: fn %s has no call of %s(' % (key, fname))
                 if nhit: applied.append('N18')
+            if s.word == 'strmatches':
+                # N7: `matches!(X, "a" | "b" | ..)` with string-literal alternatives only -> `(X == "a" || X == "b" || ..)`, whatever the list
+                for k in range(it.body_open + 1, it.body_close):
+                    if src.is_id(k, 'matches') and src.is_p(k + 1, '!') and src.is_p(k + 2, '('):
+                        po = k + 2; pc = src.match(po)
+                        q = po + 1
+                        while q < pc and not src.is_p(q, ','): q = src.skip_group(q)
+                        scrut = src.text_of(po + 1, q)
+                        alts = [src.t(x) for x in range(q + 1, pc)]
+                        if not alts or not all((t_.kind == 'str') if i_ % 2 == 0 else (t_.kind == 'punct' and t_.text == '|') for i_, t_ in enumerate(alts)):
+                            raise SpliceError('unsupported: matches! with non-literal patterns in fn %s' % key)
+                        self.ed.replace(src.t(k).start, src.t(pc).end, '(' + ' || '.join('%s == %s' % (scrut, t_.text) for t_ in alts[::2]) + ')')
+                        applied.append('N7')
             if s.word == 'bytelits':
                 # N10: `X.put_slice(b"ASCII")` -> `{ proof { reveal_strlit("ASCII"); } vx_put_str(X, "ASCII") }` for EVERY ASCII byte-string
                 # literal of the fn (Verus gives byte-string literals no meaning; an ASCII one is the UTF-8 text of the same str literal)
